@@ -1,11 +1,84 @@
 import ShelxModel.JsonUtil
 import ShelxModel.C02
+import ShelxModel.Extracted.C02Dispatch
 open Lean Shelx.J
 
 namespace Shelx.Drv.C02
+open Shelx.C02
+
+def kindStr : Kind → String
+  | .int => "int" | .num => "num" | .big => "big" | .dnum => "dnum" | .word => "word" | .sym => "sym"
+
+def kindOf (s : String) : Except String Kind :=
+  match s with
+  | "int" => .ok .int | "num" => .ok .num | "big" => .ok .big | "dnum" => .ok .dnum
+  | "word" => .ok .word | "sym" => .ok .sym
+  | _ => err s!"C02: unknown token kind {s}"
+
+def modeOf (s : String) : Except String Mode :=
+  match s with
+  | "quiet" => .ok .quiet | "verbose" => .ok .verbose | "debug" => .ok .debug
+  | _ => err s!"C02: unknown mode {s}"
+
+def errStr : Err → String
+  | .IndexError => "IndexError" | .ValueError => "ValueError" | .NameError => "NameError"
+  | .AttributeError => "AttributeError" | .KeyError => "KeyError" | .ParseError => "ParseError" | .Other => "Other"
+
+def optErr : Option Err → Json
+  | none => Json.null
+  | some e => Json.str (errStr e)
+
+def slotStr : Slot → String
+  | .titl => "titl" | .cell => "cell" | .zerr => "zerr" | .latt => "latt" | .symm => "symm" | .neut => "neut"
+  | .sfac => "sfac" | .disp => "disp" | .unit => "unit" | .body => "body" | .fvar => "fvar" | .hklf => "hklf"
+  | .endd => "end" | .tail => "tail" | .frag => "frag" | .fend => "fend"
+
+def kindsJson (l : List Kind) : Json := Json.arr (l.map fun k => Json.str (kindStr k)).toArray
+
+def formOf (j : Json) : Except String Form := do
+  let kw ← strField j "kw"
+  let toks ← (← field j "toks" >>= strs).mapM kindOf
+  return { kw := kw, toks := toks }
+
+def ctxOf (j : Json) : Except String Ctx := do
+  let last ← strField j "last"
+  let flags ← field j "flags" >>= strs
+  return { last := last, flags := flags }
+
+def testStr : Test → String
+  | .wordEq k _ => s!"word=={k}" | .wordIn ks _ => s!"word in {ks}" | .starts p _ => s!"startswith {p}"
+  | .isAtom => "is_atom" | .otherwise => "else"
+
+def T : Tables := Shelx.C02.Extracted.tables
 
 def handle (j : Json) : Except String Json := do
   let op ← strField j "op"
-  err s!"C02: unknown op {op}"
+  match op with
+  | "table" =>
+    -- the specification's syntax table, so that generator and theorems share one table
+    let rows := syntaxTable.map fun s => Json.mkObj [
+      ("kw", Json.str s.kw), ("slot", Json.str (slotStr s.slot)), ("documented", Json.bool s.documented),
+      ("suffix", Json.bool s.suffix), ("forms", Json.arr (s.forms.eraseDups.map fun f => kindsJson f.toks).toArray)]
+    return Json.mkObj [("syntax", Json.arr rows.toArray),
+                       ("atoms", Json.arr (atomForms.map fun f => kindsJson f.toks).toArray),
+                       ("branches", Json.num (JsonNumber.fromNat T.dispatch.length)),
+                       ("cards", Json.num (JsonNumber.fromNat T.cards.length))]
+  | "accepts" =>
+    let f ← formOf j
+    let c ← ctxOf j
+    let m ← strField j "mode" >>= modeOf
+    let br := match selectBranch T f with | some b => testStr b.test | none => "none"
+    match stepLine T m c f with
+    | .ok c' => return Json.mkObj [("ok", Json.bool true), ("err", Json.null), ("branch", Json.str br),
+                                   ("last", Json.str c'.last), ("atom", Json.bool (lineIsAtom T f))]
+    | .error e => return Json.mkObj [("ok", Json.bool false), ("err", Json.str (errStr e)), ("branch", Json.str br),
+                                     ("last", Json.str c.last), ("atom", Json.bool (lineIsAtom T f))]
+  | "file" =>
+    let m ← strField j "mode" >>= modeOf
+    let lines ← (← arrField j "lines").mapM formOf
+    let o := parseAll T m lines
+    return Json.mkObj [("lastLine", Json.num (JsonNumber.fromNat o.lastLine)), ("consumed", Json.num (JsonNumber.fromNat o.consumed)),
+                       ("innerErr", optErr o.innerErr), ("raised", optErr o.raised), ("n", Json.num (JsonNumber.fromNat lines.length))]
+  | _ => err s!"C02: unknown op {op}"
 
 end Shelx.Drv.C02
